@@ -186,7 +186,7 @@ fn hostile_cfg() -> BoxedStrategy<FileCfg> {
     ];
     (
         prop::option::weighted(0.85, (crit_strat(), nam, cln)),
-        prop_oneof![3 => sync_mode_strat(), 1 => async_mode_strat()],
+        prop_oneof![3 => sync_mode_strat(), 1 => async_mode_strat(), 1 => hostile_async_mode()],
         prop_oneof![4 => suffix_strat(), 1 => Just(Some("log.1".to_string())), 1 => Just(Some("ü".to_string())), 1 => Just(Some(String::new()))],
         prop::option::weighted(0.8, hostile_name_part()),
         prop::option::weighted(0.3, hostile_name_part()),
@@ -227,6 +227,13 @@ fn hostile_cfg() -> BoxedStrategy<FileCfg> {
         .boxed()
 }
 
+/// async modes with degenerate capacities (an empty pool, empty message buffers)
+fn hostile_async_mode() -> BoxedStrategy<Mode> {
+    (prop_oneof![Just(0usize), Just(1usize)], prop_oneof![Just(0usize), Just(1usize), Just(200usize)], prop_oneof![Just(0u64), Just(1u64)])
+        .prop_map(|(pool, msg, flush_ms)| Mode::Async { pool, msg, flush_ms })
+        .boxed()
+}
+
 /// near misses of the family pattern of `cfg`, as raw file names
 fn pre_entries(cfg: &FileCfg) -> BoxedStrategy<Vec<Pre>> {
     let prefix = cfg.static_prefix();
@@ -247,6 +254,10 @@ fn pre_entries(cfg: &FileCfg) -> BoxedStrategy<Vec<Pre>> {
         add(format!("{prefix}{sep}{infix}.restart-0000{sfx}"));
         add(format!("{prefix}{sep}{infix}.restart-9999{sfx}"));
         add(format!("{prefix}{sep}{infix}.restart-123456{sfx}"));
+        // numbers at and beyond the limits of the integer types they are parsed into
+        add(format!("{prefix}{sep}{infix}.restart-18446744073709551615{sfx}"));
+        add(format!("{prefix}{sep}{infix}.restart-18446744073709551616{sfx}"));
+        add(format!("{prefix}{sep}{infix}.restart-4294967295{sfx}"));
         add(format!("{prefix}{sep}{infix}é{sfx}"));
         add(format!("{prefix}{sep}{infix}"));
         add(format!("{prefix}é{infix}{sfx}"));
@@ -256,6 +267,11 @@ fn pre_entries(cfg: &FileCfg) -> BoxedStrategy<Vec<Pre>> {
     add(format!("{prefix}{sep}{sfx}"));
     add(format!("{prefix}{sep}r{sfx}"));
     add(format!("{prefix}{sep}r1{sfx}"));
+    add(format!("{prefix}{sep}r4294967295{sfx}"));
+    add(format!("{prefix}{sep}r4294967294{sfx}"));
+    add(format!("{prefix}{sep}r4294967296{sfx}"));
+    add(format!("{prefix}{sep}r18446744073709551615{sfx}"));
+    add(format!("{prefix}{sep}r99999999999999999999999{sfx}"));
     add(format!("{prefix}{sep}rX{sfx}"));
     add(format!("{prefix}{sep}é"));
     add(format!("{prefix}_"));
